@@ -162,16 +162,23 @@ impl<R> Archive<R> {
             let offs = header::PRE_HEADER_SIZE + dictionary_size;
             u64::from_le_bytes(header[offs..(offs + 8)].try_into().unwrap())
         };
-        let archive_chunks: Vec<ChunkDescriptor> = dictionary
+        let archive_chunks = dictionary
             .chunk_descriptors
             .into_iter()
-            .map(|dict| ChunkDescriptor {
-                checksum: dict.checksum.into(),
-                archive_size: dict.archive_size as usize,
-                archive_offset: chunk_data_offset + dict.archive_offset,
-                source_size: dict.source_size,
+            .map(|dict| {
+                // Neither the start nor the end of a chunk can be beyond what an offset can hold.
+                let archive_offset = chunk_data_offset
+                    .checked_add(dict.archive_offset)
+                    .filter(|offset| offset.checked_add(dict.archive_size.into()).is_some())
+                    .ok_or_else(|| ArchiveError::invalid_archive("invalid chunk offset"))?;
+                Ok(ChunkDescriptor {
+                    checksum: dict.checksum.into(),
+                    archive_size: dict.archive_size as usize,
+                    archive_offset,
+                    source_size: dict.source_size,
+                })
             })
-            .collect();
+            .collect::<Result<Vec<ChunkDescriptor>, ArchiveError<R::Error>>>()?;
         let chunker_params = dictionary
             .chunker_params
             .ok_or_else(|| ArchiveError::invalid_archive("invalid chunker parameters"))?;
